@@ -145,7 +145,8 @@ impl WireLog {
 }
 
 struct Inbox {
-    q: VecDeque<(Vec<u8>, SocketAddr)>,
+    /// datagram, source, virtual time at which it was put into the socket's receive buffer
+    q: VecDeque<(Vec<u8>, SocketAddr, Instant)>,
     waker: Option<Waker>,
 }
 
@@ -250,7 +251,7 @@ impl Net {
                         g.log.delivered.push(WireRec { t_us, src: s.d.src, dst: s.d.dst, data: s.d.data.clone() });
                     }
                     if let Some(ib) = g.inboxes.get_mut(&s.d.dst) {
-                        ib.q.push_back((s.d.data, s.d.src));
+                        ib.q.push_back((s.d.data, s.d.src, now));
                         if let Some(w) = ib.waker.take() {
                             w.wake();
                         }
@@ -360,8 +361,11 @@ impl IO for SimIo {
         };
         let n = pkts.len().min(route.len());
         let mut k = 0;
+        let mut waited = Duration::ZERO;
+        let now = Instant::now();
         while k < n {
-            let Some((data, src)) = ib.q.pop_front() else { break };
+            let Some((data, src, at)) = ib.q.pop_front() else { break };
+            waited = waited.max(now.saturating_duration_since(at));
             let len = data.len().min(pkts[k].len());
             pkts[k][..len].copy_from_slice(&data[..len]);
             // same orientation as qudp's UdpSocketController::poll_recv: "the way to answer"
@@ -374,6 +378,13 @@ impl IO for SimIo {
             ib.waker = Some(cx.waker().clone());
             Poll::Pending
         } else {
+            // The clock is virtual and only advances while every task is idle: a datagram that sat in the socket's
+            // buffer for a measurable virtual time means the interface's receive task was not reading although it had
+            // been woken, i.e. it was blocked on something else (monitor `receive-path-blocked`; key only present then).
+            if waited >= Duration::from_millis(1) {
+                let e = g.log.counts.entry("rx_wait_max_ms").or_insert(0);
+                *e = (*e).max(waited.as_millis() as u64);
+            }
             Poll::Ready(Ok(k))
         }
     }
